@@ -56,6 +56,7 @@ def predict (s : St) (op : List String) : String :=
 def keyOf (impl : String) : String :=
   match impl.splitOn " " with
   | "CRASH" :: site :: _ => "crash-" ++ site
+  | "PANIC" :: _ => "panic"
   | _ => "not-serving"
 
 def step (s : St) (op : List String) (impl : String) : LineOut St :=
@@ -66,7 +67,7 @@ def step (s : St) (op : List String) (impl : String) : LineOut St :=
   -- the division by zero of a node that was configured with zero-size buffers is the predicted consequence of the
   -- violated configuration precondition, not a reaction to network input
   let excused := impl == "divide-by-zero" && s.zeroBuffers
-  let bad := !(impl == "ok" || impl == "serving" || impl == "bad-op" || excused)
+  let bad := !(impl == "ok" || impl == "serving" || impl == "bad-op" || impl == "skipped-node-does-not-start" || excused)
   { state := s', model := some (predict s op),
     monitor := if bad then some (keyOf impl, s!"the node did not survive / stopped serving: {impl}") else none }
 
